@@ -67,6 +67,9 @@ var fieldTypes = []string{"int", "string", "bool", "float64", "uint8", "int64", 
 	"meta.Kind", "[]meta.Spec", "*meta.Spec", "map[string]meta.Kind",
 	// two foreign types with the same NAME from different packages, also inside one type literal
 	"meta.Thing", "*meta.Thing", "struct{ A other.Thing; B meta.Thing }", "map[other.Key]meta.Thing", "other.Thing",
+	// containers that differ only in the type BEHIND a pointer (seeded change C18-n: type literals memoised under a
+	// key that prints nothing for pointers: []*A and []*B both "[]")
+	"[]*Inner", "[]*other.Thing", "[]*meta.Spec", "map[string]*Inner", "map[string]*other.Thing", "[2]*Inner", "[2]*meta.Thing", "[]*Inner", "[]*other.Thing",
 	// packages whose directory name is a Go keyword (ptypes/struct, api/type, x/go) or starts with a digit (3rd): the
 	// import needs a local name that is none of these (seeded change C18-l)
 	"structpb.Value", "*structpb.Value", "map[string]structpb.Value", "[]typepb.Code", "typepb.Code", "gopkg.Mod", "third.Party", "struct{ V structpb.Value; C typepb.Code }"}
